@@ -525,6 +525,7 @@ class ForceMatrix:
         :rtype: list
         """
         list_of_big_edges = [big_edge.get_vertices_ids() for big_edge in self.frame.internal_big_edges]
+        x0 = list(x0)  # do not overwrite the caller's initial condition
         both_count = 0
         removed_indices = {}
         for index, big_edge in enumerate(list_of_big_edges):
